@@ -276,6 +276,7 @@ func RunPipe(t *testing.T, sc *Scenario, capture bool, record bool) *PipeResult 
 				} else {
 					readsAtLogPend = -1
 				}
+				noteState(pend, st.returned, &fst, res.LogGates, res.OutGates)
 				i := ch(pend, st)
 				res.Choices = append(res.Choices, i)
 				switch pend[i].Obj {
@@ -323,6 +324,68 @@ func RunPipe(t *testing.T, sc *Scenario, capture bool, record bool) *PipeResult 
 	RunLogHash = (RunLogHash ^ res.Hash ^ hash64(res.ErrText) ^ hash64(res.Log)*3 ^ hash64(res.Out)*5 ^
 		uint64(res.FS.Closes)<<40 ^ uint64(res.FS.Reads)<<20 ^ uint64(res.Steps) ^ hash64(res.ExitPanic)*7 ^ hash64(fmt.Sprint(res.Choices))*11) * 1099511628211
 	return res
+}
+
+// StateSigs collects, per worker process, the distinct abstract quiescent states the
+// scheduler has stood in (the measure of reach reported as distinct_states): the shape of
+// the pending set (object and kind of every pending gate, without sequence numbers),
+// whether the call has returned, whether Close has run, how far reading has got
+// (bucketed), whether EOF / an error / a zero-byte read has been delivered, and how many
+// log and output writes have been let through (bucketed). Only the scheduler goroutine
+// touches it.
+var StateSigs = map[uint64]struct{}{}
+
+func bucket(n int) int {
+	switch {
+	case n < 3:
+		return n
+	case n < 6:
+		return 3
+	case n < 20:
+		return 4
+	case n < 200:
+		return 5
+	}
+	return 6
+}
+
+func noteState(pend []*simio.Gate, returned bool, fs *simio.FileStats, logGates, outGates int) {
+	if len(StateSigs) >= 1<<20 {
+		return
+	}
+	h := uint64(1469598103934665603)
+	mix := func(v int) {
+		h ^= uint64(v) + 0x9e37
+		h *= 1099511628211
+	}
+	for _, g := range pend {
+		mix(g.Obj<<4 | g.Kind)
+	}
+	mix(-1)
+	b := 0
+	if returned {
+		b |= 1
+	}
+	if fs.ErrDelivered {
+		b |= 2
+	}
+	if fs.Remaining == 0 {
+		b |= 4
+	}
+	if fs.ZeroReads > 0 {
+		b |= 8
+	}
+	if fs.ReadAfterEOF > 0 {
+		b |= 16
+	}
+	mix(b)
+	mix(bucket(fs.Closes))
+	mix(bucket(fs.Reads))
+	mix(bucket(fs.ReadCalls - fs.Reads))
+	mix(bucket(fs.NameCalls))
+	mix(bucket(logGates))
+	mix(bucket(outGates))
+	StateSigs[h] = struct{}{}
 }
 
 // Beat tells the supervising parent that the worker is alive: it is called whenever a call
